@@ -182,7 +182,7 @@ def main(tier):
         # StairSound: the staircase formula is the fill of the staircase contour (small instances) ...
         ('stairMC', 'Xsec_stairMC.cfg', None, 900),
         # ... and staircase ribbons with > 1024 edges: the BVH broad phase of boolean2.cpp
-        ('stair', 'Xsec_stair.cfg', 4 if quick else 12, 2400)]
+        ('stair', 'Xsec_stair.cfg', 2 if quick else 12, 2400)]
     if not quick:
         plan.append(('stairL', 'Xsec_stairL.cfg', 12, 3000))
     from concurrent.futures import ThreadPoolExecutor
